@@ -64,4 +64,37 @@ PROPS = {
         "assumes": ["page contents collide only if their CRC64 values do (pages are represented by their checksum in the model)", "histories are pager-protocol conformant (every page up to the new size is written)"],
         "trusted_base": ["Model/PageDB.v is hand-written; tie = cases_c04_*.v (whole histories) on every run"],
     },
+    "C02": {
+        "gen": ["ConstsGen.v"], "props_file": "Props/C02.v", "coq_targets": ["Props/C02.v"],
+        "level_text": "Proof: for every rollback-mode pager program (any sequence of page writes, then finalisation) the file CommitJournal produces has TXID+1, pre-checksum = previous checksum, strictly sorted pages none beyond the new size or on the lock page, and applied to the image at the previous position yields exactly the database file SQLite now sees (Props/C02.v over Model/PageDB.v); the post-commit truncate is accepted only for the committed size. "
+                      "Tie: every generated history (three finalisation modes, commit / rollback before and after spill / lock-only, grow, shrink, create from nothing) is re-executed by the model, which must reproduce every position and every new file's header, page list and page checksums.",
+        "level_note": "Trusted: Coq kernel, harness pager simulator (not real SQLite; real SQLite through the mount needs kernel FUSE), ltx decoder used to read files. Modelled not verified: db.go/fuse text (DB-API level driver; FUSE dispatch is exercised in C07). Multi-segment journals are covered in C17 (reader), not here.",
+        "technique": "Coq proof (dirty-set invariant + commit exactness) + vm_compute correspondence of whole histories + independent LTX/image oracle",
+        "rule": "random histories of pager programs on one database of a real primary Store (no FUSE; the DB API calls the FUSE handlers make), observed after every step: position, image read raw from database+WAL, decoded LTX directory; rollback transactions in DELETE/TRUNCATE/PERSIST with outcomes commit / rollback-before-write / rollback-after-write / lock-only, sector sizes 512/1024/4096, page sizes 512..65536, sizes around 1-12, 254-259, 510-514 pages; distinct = (op, journal mode, outcome, size class before -> after); non-trivial = a finalisation whose new LTX file is decoded and applied to the previous reference image",
+        "explanation": "Theorems quantify over all pager programs; correspondence ties model and code on the generated ones.",
+        "assumes": ["pager programs follow SQLite's protocol (journal created before database writes; every page up to the new size written)"],
+        "trusted_base": ["Model/PageDB.v hand-written; tie = cases_c02_*.v"],
+    },
+    "C03": {
+        "gen": ["ConstsGen.v"], "props_file": "Props/C03.v", "coq_targets": ["Props/C03.v"],
+        "level_text": "Proof: CommitWAL's file has TXID+1, pre-checksum = previous checksum, commit size from the commit frame, and contains exactly the LAST frame of every page the transaction wrote with the lock page skipped and nothing else; its checksum is the from-scratch value (Props/C03.v). "
+                      "Whether a complete committed transaction lies at the WAL offset is decided at byte level (C17). Tie: histories with repeated pages, split header/body writes, rolled-back frames overwritten at the same offsets, WAL restarts after application (PASSIVE/FULL/RESTART/TRUNCATE) and LiteFS checkpoints, both checksum byte orders, grow/shrink across 256-page blocks are re-executed by the model.",
+        "level_note": "Trusted: Coq kernel, harness WAL pager simulator (not real SQLite), ltx decoder. Modelled not verified: db.go text; frames with page numbers beyond the commit size (never produced by SQLite) are outside the model.",
+        "technique": "Coq proof (last-frame-per-page exactness, checksum) + vm_compute correspondence of whole histories + independent LTX/image oracle",
+        "rule": "random histories of pager programs on one database of a real primary Store (no FUSE; the DB API calls the FUSE handlers make), observed after every step: position, image read raw from database+WAL, decoded LTX directory; WAL transactions of 1-8 frames with repeated pages, split writes, aborted-then-overwritten frames, restarts with new salts, both byte orders; distinct = (op, size class before -> after); non-trivial = a WRITE-lock release whose effect (one new file or none) is compared with the reference",
+        "explanation": "Theorems quantify over all frame lists; correspondence ties model and code.",
+        "assumes": ["WAL writers follow SQLite's protocol (WRITE lock held while writing, page 1 rewritten when the size changes)"],
+        "trusted_base": ["Model/PageDB.v hand-written; tie = cases_c03_*.v"],
+    },
+    "C09": {
+        "gen": ["ConstsGen.v"], "props_file": "Props/C09.v", "coq_targets": ["Props/C09.v"],
+        "level_text": "Proof: the chain predicate (consecutive files link by TXID and checksum, last file = current position) is an invariant of every operation of the model (local commits in both modes, drop, replicated apply, snapshot, checkpoint, restart, retention) and hence of every history; a received snapshot replaces the whole directory; retention never removes the newest file nor, with a backup client, a file at or above the high-water mark, for every age assignment; with ages non-decreasing in TXID order the remainder is a suffix (Props/C09.v). "
+                      "File integrity and the temporary-file name filter are byte-level facts checked by decoding every file after every step and by planting stray *.tmp files before restarts.",
+        "level_note": "Trusted: Coq kernel, harness, ltx decoder (integrity check). Modelled not verified: db.go/store.go text; wall-clock timing of the retention monitor (sweeps are invoked directly with chosen mtimes).",
+        "technique": "Coq proof (chain invariant by induction over operations, retention lemmas) + vm_compute correspondence + directory decoding oracle",
+        "rule": "random histories of pager programs on one database of a real primary Store (no FUSE; the DB API calls the FUSE handlers make), observed after every step: position, image read raw from database+WAL, decoded LTX directory; plus retention sweeps with chosen mtimes (monotone and non-monotone), with/without backup client and high-water marks, stray temporary files, drops and restarts; distinct = (op, number of files) and (files, backup, removed); non-trivial = a step after which the whole directory is decoded and the chain predicate evaluated",
+        "explanation": "Invariant proved for all histories; the directory on disk is compared with the model's after every step.",
+        "assumes": ["modification times of transaction files do not decrease with the TXID (needed only for the 'remainder is still a chain' part)"],
+        "trusted_base": ["Model/PageDB.v hand-written; tie = cases_c09_*.v"],
+    },
 }
